@@ -9,7 +9,7 @@ from .common import flat, gb
 
 PROP = "C15"
 N_QUICK = 2500
-N_THOROUGH = 50000
+N_THOROUGH = 60000
 RULE = ("An independent O(n^2) reference NBC (index based, no string keys) re-clusters every population a simulated "
         "tree hands to NearestBetterClustering (NBC generators on SEA / DE / SHADE / LHS / Sobol / CMA-ES parents over "
         "long runs: uniform early, clustered multi-funnel, collinear-ish narrow boxes, tied plateaus, tightly converged "
@@ -119,6 +119,20 @@ class C15Monitor(Monitor):
             return
         w = self.w
         df, tf = float(gen.distance_factor), float(gen.truncation_factor)
+        sp = w.plan.get("sprout")
+        want = None
+        if sp is None:
+            want = (3.0, 0.7)  # minimize(): get_NBC_sprout() defaults
+        elif sp.get("factory") == "nbc":
+            want = (float(sp["gen_dist_factor"]), float(sp["trunc_factor"]))
+        elif "generator" in sp and sp["generator"]["kind"] != "best":
+            want = (float(sp["generator"]["distance_factor"]), float(sp["generator"]["truncation_factor"]))
+        if want is not None:
+            w.probe("c15-configured-factors-checked")
+            if want != (df, tf):
+                self.violate("clustering-uses-other-factors-than-configured",
+                             {"configured": list(want), "used": [df, tf], "factory": bool(sp is None or sp.get("factory"))})
+                df, tf = want
         for d, c in res.items():
             if not d._active:
                 continue
